@@ -341,6 +341,6 @@ func init() {
 		},
 		Real: append([]string{"header.ViaModifier, httpspec stack, martian.ErrorStatus -> 400 mapping; one or two real proxy instances chained to each other"}, realForwarder...),
 		Stub: stubCommon,
-		Rule: "topologies: one instance + crafted Via chains (own element alone / before / after / between other hops / in a second field line / with comment / with another protocol version; same-name-other-instance, longer pseudonym sharing the tag as prefix, other hops only, none), one instance whose upstream proxy is itself, two instances pointing at each other (same or different names); plain and CONNECT requests. The instance's element is learnt from what the origin receives. Ledger: proxy-to-proxy connections, origin contact, status. Non-trivial = judged without violation.",
+		Rule: "topologies: one instance + crafted Via chains (own element alone / before / after / between other hops / in a second field line / with comment / with another protocol version; same-name-other-instance, longer pseudonym sharing the tag as prefix, other hops only, none), one instance whose upstream proxy is itself, two instances pointing at each other (same or different names); plain and CONNECT requests. The instance's element is learnt from what the origin receives. Ledger: proxy-to-proxy connections, origin contact, status. Non-trivial = judged without violation. Later additions: chains of 16-28 foreign elements around the own element, empty list members, comments containing commas, instance names with capitals.",
 	})
 }
